@@ -6,13 +6,22 @@ EXPLANATION = ('(R18.1) CSV: the set of characters that trigger quoting under qu
                'unquoted field (case labels and member comparisons of the unquoted_string state: field delimiter, CR, LF) and the quote '
                'character; (R18.2) the escape writer turns exactly the quote character into quote_escape_char followed by the quote character, '
                'and the parser quoted_string/escaped_value states undo exactly that.')
-NOT_DECIDED = 'table equality after a round trip; column/type inference; the TOON encoder/reader pair beyond the listed rules'
+EXPLANATION += (' (R18.3) TOON: whatever the quoted-string writer called by encode_string/encode_key emits for each of the 256 characters '
+                '(partial evaluation of its character loop) is read back to that character by the reader (unescape_string acceptance table, '
+                'partially evaluated for every escape letter); (R18.4) the encoder unquoted-safety predicate rejects every string the reader '
+                'would not return unchanged: the structural characters the reader searches for outside quotes, a leading quote, the literal words '
+                'the reader turns into true/false/null, anything is_number() accepts, empty strings and strings with outer white space.')
+NOT_DECIDED = ('table equality after a round trip; column/type inference; for TOON: equality of the two number recognisers (encoder is_number, '
+               'reader number scanner), indentation and array-header layout')
 
 def run(chk, tier, only_rule=None):
     chk.explanation = EXPLANATION
     chk.not_decided = NOT_DECIDED
     facts = F.load(['csv'], tier)
-    chk.units = ['csv']
+    chk.units = ['csv', 'toon']
+    if only_rule in (None, 'R18.3', 'R18.4'):
+        toon_rules(chk, tier)
+    if only_rule in ('R18.3', 'R18.4'): return
     chk.rule('R18.1', 'CSV minimal quoting: trigger set of the encoder is a superset of the characters special in an unquoted field plus the quote character', floor=4)
     chk.rule('R18.2', 'CSV quote escaping: writer emits quote_escape_char + quote_char exactly for quote_char; parser escaped_value accepts exactly quote_char', floor=4)
     # ---- parser special set in unquoted_string
@@ -91,3 +100,216 @@ def run(chk, tier, only_rule=None):
     site = U.site(pfn, 'escaped_value accepts quote_char')
     if ok: chk.ok('R18.2', site, {'verdict': 'escaped_value: curr_char == quote_char_ -> push'})
     else: chk.fail('R18.2', site, pfn['file'], pfn['l'], 'parser state escaped_value does not restore the quote character', None, pfn['q'])
+
+
+# ---------------------------------------------------------------------------------------------------------------- TOON
+def char_loop(fn):
+    """(loop statement, name of the per-character variable) of a character-wise writer."""
+    for x in A.walk_no_lambda(fn['body']):
+        if x.get('k') == 'CXXForRangeStmt' and x.get('var'):
+            return x, (x['var'].get('n'), x['var'].get('id'))
+        if x.get('k') == 'ForStmt':
+            for y in A.walk_no_lambda(x.get('body')):
+                if y.get('k') == 'DeclStmt':
+                    for d in y.get('decls') or []:
+                        if d.get('init') is not None and any(z.get('k') == 'UnaryOperator' and z.get('op') == '*' or
+                                                             (z.get('k') == 'CXXOperatorCallExpr' and z.get('oop') == '*') for z in A.walk(d['init'])):
+                            return x, (d.get('n'), None)
+            return x, None
+    return None, None
+
+def writer_table(chk, facts, fn, env):
+    """c -> (unguarded pushes, all pushes) for c in 0..255."""
+    from .c01 import esc_pure
+    loop, var = char_loop(fn)
+    chk.require(loop is not None and var, '%s: character loop not found' % fn['q'])
+    out = {}
+    for c in range(256):
+        cv = c if c < 128 else c - 256
+        pe = P.PEval(facts, fn, pure=esc_pure, bind={var[0]: cv}, max_depth=1)
+        e0 = dict(env)
+        if var[1] is not None: e0[var[1]] = cv
+        try:
+            pe.exec_stmt(loop['body'], e0, (), 0)
+        except P.Stop:
+            chk.broken('R18.3: effect budget exhausted in %s' % fn['q'])
+        pushes = [e for e in pe.effects if e.kind == 'call' and e.name.endswith('.push_back')]
+        out[c] = ([e.args[0] for e in pushes if not e.guards], [e.args[0] for e in pushes], pushes[0].line if pushes else loop.get('l'))
+    return out
+
+def reader_escape_table(chk, facts):
+    fns = [f for f in facts.functions if f['n'] == 'unescape_string' and f['file'].endswith('toon_reader.hpp') and f.get('body') is not None and not f.get('dep')]
+    chk.require(fns, 'toon unescape_string not found')
+    fn = fns[0]
+    chk.analysed(fn)
+    # the block that dispatches on the character after the backslash: a char local compared with constants (if chain or switch)
+    best = None
+    for blk in A.walk_no_lambda(fn['body']):
+        if blk.get('k') != 'CompoundStmt': continue
+        names = [d.get('n') for c in blk.get('c') or [] if c.get('k') == 'DeclStmt' for d in c.get('decls') or []]
+        for v in names:
+            tests = 0
+            for c in blk.get('c') or []:
+                if c.get('k') == 'IfStmt':
+                    cmp_ = G.comparison(c.get('cond'))
+                    if cmp_ and cmp_[0] == '==' and A.ref_name(cmp_[1]) == v and A.const(cmp_[2]) is not None: tests += 1
+                if c.get('k') == 'SwitchStmt' and A.ref_name(c.get('cond')) == v: tests += 2
+            if tests >= 2: best = (blk, v)
+    chk.require(best is not None, 'toon unescape_string: dispatch on the escaped character not found')
+    blk, v = best
+    table = {}
+    for x in range(256):
+        pe = P.PEval(facts, fn, bind={v: x if x < 128 else x - 256}, max_depth=1)
+        r = pe.exec_stmt(blk, {}, (), 0)
+        stores = [e for e in pe.effects if e.kind == 'set' and e.name.startswith('*') and not e.guards and e.args and isinstance(e.args[0], int)]
+        rejects = [e for e in pe.effects if e.kind == 'return' and not e.guards]
+        if stores and not rejects: table[x] = stores[0].args[0] & 0xff
+    return fn, table
+
+def toon_rules(chk, tier):
+    facts = F.load(['toon'], tier)
+    chk.rule('R18.3', 'TOON escapes: every character the quoted-string writer emits (raw or as backslash + letter) is read back to the same '
+                      'character by the reader unescape table', floor=512)
+    chk.rule('R18.4', 'TOON quoting: is_unquoted_safe rejects every string the reader would not return unchanged as a string (structural '
+                      'characters, leading quote, literal words, numbers, empty, outer white space)', floor=10)
+    rfn, rtable = reader_escape_table(chk, facts)
+    chk.require(len(rtable) >= 2 and rtable.get(0x5c) == 0x5c and rtable.get(0x22) == 0x22, 'toon unescape table does not restore backslash and quote: %s' % rtable)
+    chk.note('toon reader escape table: %s' % {chr(k): v for k, v in sorted(rtable.items())})
+    n = 0
+    for wname in ('encode_string', 'encode_key'):
+        ws = [f for f in facts.functions if f['n'] == wname and f['file'].endswith('encode_toon.hpp') and f.get('body') is not None and not f.get('dep')]
+        chk.require(ws, 'toon %s not instantiated' % wname)
+        for fn in U.one_per_inst(ws):
+            chk.analysed(fn)
+            sinks = [p['n'] for p in fn['params'] if p['n'] == 'sink' or 'Sink' in fn['_types'][p['t'] - 1]]
+            writers = []
+            for call in A.calls_in(fn['body'], no_lambda=True):
+                callee = facts.callee(fn, call)
+                if callee is None or callee.get('body') is None: continue
+                if not any(A.ref_name(a) in sinks for a in call.get('args') or []): continue
+                if char_loop(callee)[0] is None: continue
+                writers.append((call, callee))
+            chk.require(writers, 'toon %s: quoted-string writer call not found' % wname)
+            for call, callee in writers:
+                chk.analysed(callee)
+                env = {}
+                for p, a in zip(callee['params'], call.get('args') or []):
+                    v = A.const(a)
+                    if v is not None: env[p['id']] = v
+                wt = writer_table(chk, facts, callee, env)
+                for c in range(256):
+                    ung, seq, line = wt[c]
+                    cv = c if c < 128 else c - 256
+                    chs = repr(chr(c)) if 32 <= c < 127 else '0x%02x' % c
+                    site = U.site(fn, '%s char=%s' % (A.strip_targs(callee['q']).split('::')[-1], chs))
+                    n += 1
+                    if ung == [cv] and len(seq) == 1 and c not in (0x22, 0x5c):
+                        chk.ok('R18.3', site, {'char': chs, 'written': 'raw'} if c in (0x41, 0x01) else None)
+                    elif len(ung) == 2 and len(seq) == 2 and ung[0] == 0x5c and rtable.get(ung[1] & 0xff) == c:
+                        chk.ok('R18.3', site, {'char': chs, 'written': '\\' + chr(ung[1])})
+                    else:
+                        shown = ''.join(chr(x & 0xff) if 32 <= (x & 0xff) < 127 else '\\x%02x' % (x & 0xff) for x in seq[:6] if isinstance(x, int))
+                        why = 'the reader rejects the escape letter %r' % chr(seq[1] & 0xff) if len(seq) >= 2 and seq[0] == 0x5c and isinstance(seq[1], int) and (seq[1] & 0xff) not in rtable \
+                              else 'the reader does not give %s back' % chs
+                        chk.fail('R18.3', site, callee['file'], line, 'TOON %s writes character %s inside quotes as "%s..."; %s (accepted escapes: %s)' % (
+                            wname, chs, shown, why, ' '.join(chr(k) for k in sorted(rtable))), {'char': chs, 'written': seq[:6], 'reader_escapes': sorted(rtable)}, callee['q'])
+    # ---- R18.4
+    us = [f for f in facts.functions if f['n'] == 'is_unquoted_safe' and f['file'].endswith('encode_toon.hpp') and f.get('body') is not None and not f.get('dep')]
+    chk.require(us, 'toon is_unquoted_safe not found')
+    ufn = us[0]; chk.analysed(ufn)
+    # the writer must consult it: encode_string writes raw only under is_unquoted_safe
+    loop, var = char_loop(ufn)
+    chk.require(loop is not None and var, 'is_unquoted_safe: character loop not found')
+    rejected = set(); delim_guarded = False
+    for c in range(256):
+        cv = c if c < 128 else c - 256
+        pe = P.PEval(facts, ufn, bind={var[0]: cv}, max_depth=1)
+        pe.exec_stmt(loop['body'], {var[1]: cv} if var[1] is not None else {}, (), 0)
+        for e in pe.effects:
+            if e.kind == 'return' and e.extra.get('value') == 0:
+                if not e.guards: rejected.add(c)
+                elif all('delimiter' in g for g in e.guards): delim_guarded = True
+    # reader structural characters: constant targets of find_unquoted_char, and the leading quote of parse_primitive
+    structural = {}
+    for f in facts.functions:
+        if not f['file'].endswith('toon_reader.hpp') or f.get('body') is None or f.get('dep'): continue
+        for call in A.calls_in(f['body'], no_lambda=True):
+            if A.callee_name(call) == 'find_unquoted_char':
+                args = call.get('args') or []
+                if len(args) >= 2 and A.const(args[1]) is not None: structural.setdefault(A.const(args[1]), (f, call.get('l')))
+    chk.require(len(structural) >= 2, 'toon reader: find_unquoted_char call sites with constant targets not found')
+    pp = [f for f in facts.functions if f['n'] == 'parse_primitive' and f['file'].endswith('toon_reader.hpp') and f.get('body') is not None and not f.get('dep')]
+    chk.require(pp, 'toon parse_primitive not found')
+    pfn = pp[0]; chk.analysed(pfn)
+    for call in A.calls_in(pfn['body'], no_lambda=True):
+        if A.callee_name(call) == 'starts_with' and len(call.get('args') or []) >= 2 and A.const(call['args'][1]) is not None:
+            structural.setdefault(A.const(call['args'][1]), (pfn, call.get('l')))
+    for k, (f, l) in sorted(structural.items()):
+        site = U.site(ufn, 'rejects structural %r' % chr(k))
+        if k in rejected: chk.ok('R18.4', site, {'reader_use': '%s:%s' % (f['file'], l)})
+        else: chk.fail('R18.4', site, ufn['file'], ufn['l'], 'a string containing %r is written unquoted, but the reader treats %r outside quotes as structure (%s:%s)' % (
+            chr(k), chr(k), f['file'], l), {'rejected': sorted(rejected)}, ufn['q'])
+    site = U.site(ufn, 'rejects the active delimiter')
+    if delim_guarded: chk.ok('R18.4', site, None)
+    else: chk.fail('R18.4', site, ufn['file'], ufn['l'], 'is_unquoted_safe does not reject a string containing the active delimiter', None, ufn['q'])
+    # literal words of the reader: chains token[i] == 'x' in one condition
+    words = {}
+    for x in A.walk_no_lambda(pfn['body']):
+        if x.get('k') != 'IfStmt': continue
+        letters = {}
+        for y in A.walk(x.get('cond')):
+            cmp_ = G.comparison(y) if y.get('k') == 'BinaryOperator' else None
+            if cmp_ and cmp_[0] == '==' and A.const(cmp_[2]) is not None:
+                l = A.strip(cmp_[1], casts=True)
+                if l is not None and l.get('k') in ('CXXOperatorCallExpr', 'ArraySubscriptExpr'):
+                    idx = [A.const(a) for a in (l.get('args') or [l.get('rhs')]) if a is not None and A.const(a) is not None]
+                    if idx: letters[idx[-1]] = A.const(cmp_[2])
+        if len(letters) >= 3 and sorted(letters) == list(range(len(letters))):
+            words[''.join(chr(letters[i]) for i in range(len(letters)))] = x.get('l')
+    chk.require(len(words) >= 3, 'toon parse_primitive: literal word tests not found (%s)' % words)
+    enc_words = set()
+    for x in A.walk_no_lambda(ufn['body']):
+        if x.get('k') in A.CALLS and x.get('oop') == '==' or (x.get('k') in A.CALLS and A.callee_name(x) == 'operator=='):
+            for a in x.get('args') or []:
+                for z in A.walk(a):
+                    if z.get('k') == 'StringLiteral': enc_words.add(z.get('s'))
+                    if z.get('k') == 'DeclRefExpr' and z.get('dk') == 'Var':
+                        v = next((v for v in facts.vars if v.get('q') == z.get('q') and v.get('init') is not None), None)
+                        for w in A.walk(v['init']) if v else ():
+                            if w.get('k') == 'StringLiteral': enc_words.add(w.get('s'))
+    for w, l in sorted(words.items()):
+        site = U.site(ufn, 'rejects literal %s' % w)
+        if w in enc_words: chk.ok('R18.4', site, {'reader_line': l})
+        else: chk.fail('R18.4', site, ufn['file'], ufn['l'], 'the string "%s" is written unquoted, the reader (line %s) returns it as a literal, not a string' % (w, l), {'encoder_words': sorted(enc_words)}, ufn['q'])
+    # number / empty / outer white space: return false under each
+    g = C.CFG(ufn['body'])
+    need = {'is_number': False, 'empty': False, 'front-space': False, 'back-space': False}
+    for nd in g.rpo:
+        if nd.kind != 'cond': continue
+        te = [e for e in nd.succ if e.label is True]
+        if not te: continue
+        rets = [x for x in G.block_after(te[0]) if x.kind == 'return' and A.const(x.ast.get('val')) == 0] if hasattr(G, 'block_after') else []
+        if not rets: continue
+        for call in A.calls_in(nd.ast):
+            cn = A.callee_name(call)
+            if cn == 'is_number': need['is_number'] = True
+            if cn == 'empty': need['empty'] = True
+            if cn == 'isspace':
+                inner = [A.callee_name(z) for a in call.get('args') or [] for z in A.calls_in(a)]
+                if 'front' in inner: need['front-space'] = True
+                if 'back' in inner: need['back-space'] = True
+    for k, v in sorted(need.items()):
+        site = U.site(ufn, 'rejects %s' % k)
+        if v: chk.ok('R18.4', site, None)
+        else: chk.fail('R18.4', site, ufn['file'], ufn['l'], 'is_unquoted_safe has no `return false` under the %s test; the reader would not return such a string unchanged' % k, None, ufn['q'])
+    # encode_string writes raw only under is_unquoted_safe
+    for fn in U.one_per_inst([f for f in facts.functions if f['n'] == 'encode_string' and f['file'].endswith('encode_toon.hpp') and f.get('body') is not None and not f.get('dep')]):
+        g2 = C.CFG(fn['body'])
+        for nd in g2.rpo:
+            if nd.kind != 'stmt': continue
+            for call in A.calls_in(nd.ast):
+                if A.callee_name(call) == 'append':
+                    gs = [(A.callee_name(c2), lab) for a, lab, e in g2.guards(nd) for c2 in A.calls_in(a)]
+                    site = U.site(fn, 'raw append under is_unquoted_safe')
+                    if ('is_unquoted_safe', True) in gs: chk.ok('R18.4', site, None)
+                    else: chk.fail('R18.4', site, fn['file'], call.get('l'), 'encode_string copies the string unquoted outside the is_unquoted_safe() test', None, fn['q'])
